@@ -50,7 +50,7 @@ UNITS = [
       defs=["NV_LEN=%d" % n, "NV_SP=%d" % sp], kind="bounded",
       bound="message length == %d bytes, chunked %d + %d, content symbolic" % (n, sp, n - sp),
       funcs=["Sha256::update", "Sha256::finalize"], tier="quick" if (n, sp) in QUICK_GLUE else "thorough")
-    for n in (0, 1, 55, 56, 63, 64, 65, 100, 119) for sp in sorted(set([0, 1 if n else 0, 10 if n == 64 else 0, n // 2, n]))
+    for n in (0, 1, 55, 56, 63, 64, 119) for sp in (sorted(set([0, 1 if n else 0, n // 2, n])) if n != 64 else [10])
 ]
 UNITS += [
     U("finalize.count_%s" % label, "h_finalize", (FINALIZE, "c_finalize"), replace=[(WBB, "c_WriteByteBlock")],
